@@ -139,6 +139,13 @@ func c18Round(run *common.Run, round int, engine string, nscans int) {
 					i = (int(atomic.LoadInt64(&scanPos[wr.Intn(3)])) + 1 + wr.Intn(700)) % N
 				}
 				i = i - i%10 + wr.Intn(9)
+				forceDelete := false
+				if wr.Chance(1, 4) {
+					// the row a scan received last (the scan is probably parked right behind it): delete exactly that one
+					if p := int(atomic.LoadInt64(&scanPos[wr.Intn(3)])); p%10 != 9 && (p/10)%W == w {
+						i, forceDelete = p, true
+					}
+				}
 				if (i/10)%W != w {
 					continue
 				}
@@ -147,7 +154,11 @@ func c18Round(run *common.Run, round int, engine string, nscans int) {
 				next := cur
 				var st drive.Status
 				call := clock.Tick()
-				switch x := wr.Intn(10); {
+				x := wr.Intn(10)
+				if forceDelete && cur.Present {
+					x = 5
+				}
+				switch {
 				case x < 4 || !cur.Present:
 					tag := fmt.Sprintf("w%d.%d", w, n)
 					next = c18RowState{Present: true, Tag: tag}
